@@ -219,6 +219,15 @@ def to_rfi_defaults(cx, fn):
           detail='' if len(inner) >= 2 else 'no nested `if %s is None: %s = 1.`' % (v, v), key='gain-one')
 
 
+def result_var(cx, fn):
+    """Name of the variable that is returned (the converted copy)."""
+    rets = fn.stmts(ast.Return)
+    names = {r.value.id for r in rets if isinstance(r.value, ast.Name)}
+    cx.need(len(rets) >= 1 and len(names) == 1 and all(isinstance(r.value, ast.Name) for r in rets),
+            '%s: does not return a single named result' % fn.qual)
+    return names.pop()
+
+
 def copy_def(cx, fn, var):
     """`var = data.copy().astype(np.float64)` (a fresh float copy of the input) is the only definition."""
     data = fn.params[0]
@@ -289,13 +298,14 @@ def to_rfi_all(cx, want=('SIB', 'FORMULA', 'NULLDEFAULT', 'WRITESET', 'SAMELAW',
             check_order(fn, 'PAIR', '%s list is paired as given' % p, p, loop, p,
                         extra_ok=('[None]*len(channels)',))
     if 'WRITESET' in want or 'SAMELAW' in want:
-        copy_def(cx, fn, 'data_t') if _has(fn, 'data_t') else cx.need(False, 'transform.to_rfi: result variable renamed')
-        nc, nr = writeset(cx, fn, 'data_t', loop, roles['channels'], [tf])
+        RV = result_var(cx, fn)
+        copy_def(cx, fn, RV)
+        nc, nr = writeset(cx, fn, RV, loop, roles['channels'], [tf])
         cx.floor('WRITESET', nc, 1, 'column stores in to_rfi')
         if 'SAMELAW' in want:
             cx.floor('SAMELAW', nr, 1, 'range stores in to_rfi')
         ret = fn.stmts(ast.Return)
-        ok = len(ret) == 1 and sym.norm(ret[0].value) == ('var', 'data_t')
+        ok = len(ret) == 1 and sym.norm(ret[0].value) == ('var', RV)
         fn.ob('WRITESET', 'the copy is what is returned', ok, ret[0] if ret else fn.ast, key='return')
     return fn
 
@@ -314,7 +324,13 @@ def to_mef_all(cx, want=('GUARD', 'PAIR', 'WRITESET', 'SAMELAW')):
     cx.need(len(loops) == 1, 'transform.to_mef: expected one loop over zip(sc_channels, sc_list)')
     loop, pairs = loops[0]
     chi, sc = pairs[0][0], pairs[1][0]
-    cdef = copy_def(cx, fn, 'data_t') if _has(fn, 'data_t') else cx.need(False, 'transform.to_mef: result variable renamed')
+    RV = result_var(cx, fn)
+    cdef = copy_def(cx, fn, RV)
+    # position form of the requested channels: defined as data._name_to_index(channels) (or channels itself for plain arrays)
+    ci = [st.targets[0].id for st in fn.stmts(ast.Assign) if isinstance(st.targets[0], ast.Name)
+          and sym.norm(st.value) == sym.norm('%s._name_to_index(channels)' % data)]
+    cx.need(len(ci) == 1, 'transform.to_mef: no `<x> = data._name_to_index(channels)`')
+    CI = ci[0]
     if 'GUARD' in want:
         gs = guards(fn, mentions=lambda t: {'sc_channels', 'sc_list'} <= names_in(t), exc=['ValueError'])
         ok = bool(gs)
@@ -331,7 +347,7 @@ def to_mef_all(cx, want=('GUARD', 'PAIR', 'WRITESET', 'SAMELAW')):
             if f is loop:
                 continue
             tn = target_names(f.target)
-            if 'channels_ind' in names_in(f.iter):
+            if CI in names_in(f.iter):
                 for st in f.body:
                     if isinstance(st, ast.If) and always_raises(st.body) and 'ValueError' in raised_types(st.body):
                         for t in tn:
@@ -341,8 +357,8 @@ def to_mef_all(cx, want=('GUARD', 'PAIR', 'WRITESET', 'SAMELAW')):
         if cov is not None:
             # the loop really iterates the requested channel indices (first zip arg or the list itself)
             it = cov[0].iter
-            okit = (isinstance(it, ast.Name) and it.id == 'channels_ind') or \
-                (isinstance(it, ast.Call) and dotted(it.func) == 'zip' and it.args and dotted(it.args[0]) == 'channels_ind'
+            okit = (isinstance(it, ast.Name) and it.id == CI) or \
+                (isinstance(it, ast.Call) and dotted(it.func) == 'zip' and it.args and dotted(it.args[0]) == CI
                  and isinstance(cov[0].target, ast.Tuple) and sym.norm(cov[1].test) ==
                  sym.norm('%s not in sc_channels' % cov[0].target.elts[0].id))
             ok = ok and okit
@@ -350,7 +366,7 @@ def to_mef_all(cx, want=('GUARD', 'PAIR', 'WRITESET', 'SAMELAW')):
               ok, cov[1] if cov else fn.ast, detail='' if ok else 'no per-channel `if chi not in sc_channels: raise ValueError` '
               'loop dominating the copy', key='coverage')
         # channels_ind is the index form of the requested channels; default request = all curves' channels
-        check_order(fn, 'PAIR', 'requested channels are translated to positions without re-ordering', 'channels_ind',
+        check_order(fn, 'PAIR', 'requested channels are translated to positions without re-ordering', CI,
                     cdef.ast, ('channels', 'sc_channels'), extra_ok=())
     if 'PAIR' in want:
         check_order(fn, 'PAIR', 'curve channels keep the order in which the curves were listed', 'sc_channels', loop,
@@ -364,15 +380,15 @@ def to_mef_all(cx, want=('GUARD', 'PAIR', 'WRITESET', 'SAMELAW')):
         fn.ob('PAIR', 'both the curve channels and the requested channels are translated from names to positions', ok,
               tr[0] if tr else fn.ast, detail='' if ok else 'translated: %s' % args, key='translate-both')
     if 'WRITESET' in want or 'SAMELAW' in want:
-        nc, nr = writeset(cx, fn, 'data_t', loop, chi, [sc])
+        nc, nr = writeset(cx, fn, RV, loop, chi, [sc])
         cx.floor('WRITESET', nc, 1, 'column stores in to_mef')
         if 'SAMELAW' in want:
             cx.floor('SAMELAW', nr, 1, 'range stores in to_mef')
         # stores only for requested channels
         skip = [st for st in loop.body if isinstance(st, ast.If)
-                and sym.norm(st.test) == sym.norm('%s not in channels_ind' % chi)
+                and sym.norm(st.test) == sym.norm('%s not in %s' % (chi, CI))
                 and len(st.body) == 1 and isinstance(st.body[0], ast.Continue)]
-        sel = [st for st in loop.body if isinstance(st, ast.If) and sym.norm(st.test) == sym.norm('%s in channels_ind' % chi)]
+        sel = [st for st in loop.body if isinstance(st, ast.If) and sym.norm(st.test) == sym.norm('%s in %s' % (chi, CI))]
         for st, tgt in subscript_stores(fn, loop):
             if skip:
                 ok = fn.cfg.dominates(fn.cfg.assume[id(skip[0])][1], fn.node(st))
@@ -383,7 +399,7 @@ def to_mef_all(cx, want=('GUARD', 'PAIR', 'WRITESET', 'SAMELAW')):
             fn.ob('WRITESET', 'only requested channels are converted', ok, st,
                   detail='' if ok else 'store not guarded by membership of the channel in the request', key='requested-only')
         ret = fn.stmts(ast.Return)
-        ok = len(ret) == 1 and sym.norm(ret[0].value) == ('var', 'data_t')
+        ok = len(ret) == 1 and sym.norm(ret[0].value) == ('var', RV)
         fn.ob('WRITESET', 'the copy is what is returned', ok, ret[0] if ret else fn.ast, key='return')
     return fn
 
@@ -393,21 +409,22 @@ def to_mef_all(cx, want=('GUARD', 'PAIR', 'WRITESET', 'SAMELAW')):
 
 def transform_all(cx):
     fn = Fn(cx, 'transform.transform')
-    copy_def(cx, fn, 'data_t')
+    RV = result_var(cx, fn)
+    copy_def(cx, fn, RV)
     f = 'transform_fxn'
     stores = subscript_stores(fn)
     ncol = nrng = 0
     for st, tgt in stores:
         tnf = sym.norm(tgt)
-        if tnf == sym.norm('data_t[:, channels]'):
+        if tnf == sym.norm('%s[:, channels]' % RV):
             ncol += 1
-            ok = sym.norm(st.value) == sym.norm('%s(data_t[:, channels])' % f)
+            ok = sym.norm(st.value) == sym.norm('%s(%s[:, channels])' % (f, RV))
             fn.ob('WRITESET', 'events of the chosen channels are replaced by the law applied to those same columns', ok, st,
                   key='col-store')
-        elif isinstance(tgt, ast.Subscript) and sym.norm(tgt.value) == sym.norm('data_t._range'):
+        elif isinstance(tgt, ast.Subscript) and sym.norm(tgt.value) == sym.norm('%s._range' % RV):
             nrng += 1
             idx = tgt.slice
-            ok = sym.norm(st.value) == sym.norm('%s(data_t._range[IDX])' % f, env={'IDX': sym.norm(idx)})
+            ok = sym.norm(st.value) == sym.norm('%s(%s._range[IDX])' % (f, RV), env={'IDX': sym.norm(idx)})
             # IDX is the position of a channel drawn from the same `channels`
             loop = [a for a in fn.ancestors(st) if isinstance(a, ast.For)]
             ok = ok and bool(loop) and sym.norm(loop[0].iter) == ('var', 'channels')
@@ -415,7 +432,7 @@ def transform_all(cx):
                 vals = [v for d, v in fn.reaching_values(idx.id, st)]
                 lv = target_names(loop[0].target)
                 ok = len(vals) == 1 and vals[0] is not None and lv and \
-                    sym.norm(vals[0]) == sym.norm('data_t._name_to_index(%s)' % lv[0])
+                    sym.norm(vals[0]) == sym.norm('%s._name_to_index(%s)' % (RV, lv[0]))
             fn.ob('SAMELAW', 'range of every transformed channel goes through the same law as its events', ok, st,
                   detail='' if ok else 'range store `%s`' % norm_stmt(st), key='range-store')
         else:
